@@ -135,6 +135,15 @@ func (w *webWriter) flushWithTrailer() {
 		if err := w.writeTrailer(); err != nil {
 			return // nothing
 		}
+	} else {
+		// Trailers-only response: everything travels in the headers.
+		hdr := w.Header()
+		for key, val := range hdr {
+			if strings.HasPrefix(key, http.TrailerPrefix) {
+				delete(hdr, key)
+				hdr[strings.TrimPrefix(key, http.TrailerPrefix)] = val
+			}
+		}
 	}
 	if c, ok := w.resp.(io.Closer); ok {
 		c.Close() // flush the base64 encoder's partial quantum
